@@ -20,8 +20,14 @@ func (hl *HashLiteral) String() string {
 
 	pairs := []string{}
 	for _, key := range hl.Order {
-		p := hl.Pairs[key]
-		pairs = append(pairs, key.String()+": "+p.String())
+		k, v := "", ""
+		if key != nil {
+			k = key.String()
+		}
+		if p := hl.Pairs[key]; p != nil {
+			v = p.String()
+		}
+		pairs = append(pairs, k+": "+v)
 	}
 
 	out.WriteString("{")
